@@ -14,6 +14,16 @@ func debugCmd(args []string) int {
 		fmt.Println(err)
 		return 1
 	}
+	if len(args) >= 1 && args[0] == "fsrefs" {
+		for _, r := range collectFSRefs(p) {
+			fmt.Printf("%-60s %-34s %-18s call=%v %s\n", FuncID(r.root), r.prim, r.cat, r.call, p.Pos(r.instr.Pos()))
+		}
+		cg := BuildCG(p)
+		for _, fc := range collectFSFieldCalls(p, cg) {
+			fmt.Printf("FIELD %-60s %-50s %-18s %s\n", FuncID(fc.root), fc.prim, fc.cat, p.Pos(fc.instr.Pos()))
+		}
+		return 0
+	}
 	if len(args) < 2 {
 		return 2
 	}
